@@ -13,6 +13,7 @@ RULE = ("each of the sixteen PCBO.add_constraint_G / add_constraint_eq_G methods
         "operands' variables against a plain-Python gate evaluator. Non-trivial = relation neither constant-true nor "
         "constant-false; distinct = digest of (method, operand descriptions, lam)"
         ' Also: positional lam for the fixed-arity methods, operand objects shared across gates, in-place-edited named operands, long-monomial and constant operands, and between two gates: trivially decided inequalities, round(H, -1/0/2), refresh(), copy() / copy.deepcopy / copy.copy / the copy constructor (recorded constraints and validity must stay).')
+RULE += " Rounds 9-10: update() into a fresh model / a model holding another constraint kind between gates, operand objects edited in place by the caller after the history, clause objects (PCBO recording a gate) as operands, clauses of 7-10 operands."
 TIERS = {"quick": {"shards": 8, "cases": 2500}, "thorough": {"shards": 16, "cases": 30000}}
 FLOOR_BASE = {"quick": 300, "thorough": 8000}    # case counts the floors below were calibrated for; the launcher scales them
 METHODS = [g for g in _sat.ALL] + ["eq_" + g for g in _sat.ALL]
